@@ -18,6 +18,8 @@ def sess_class(r):
         return "p"
     if r.startswith("req:"):
         return "req:<session>"
+    if r.startswith("wfail:"):
+        return "wfail:<session>" + (";done" if r.endswith(";done") else "")
     if r.startswith("err:"):
         return "err"
     if r.startswith("fresh:"):
@@ -39,8 +41,8 @@ def relog_class(r):
 
 PROP = {
         "level": "proof",
-        "gens": ["RandFacts", "KeyFacts"],
-        "extra_targets": ["Frp.Props.C12Res", "Frp.Props.C12Keys"],
+        "gens": ["RandFacts", "KeyFacts", "DispFacts"],
+        "extra_targets": ["Frp.Props.C12Res", "Frp.Props.C12Keys", "Frp.Props.C12Disp", "Frp.Props.C12DispCode"],
         "theorems": [
             "Frp.Sess.ninv_step", "Frp.Sess.rinv_step", "Frp.C12.reachable_inv",
             "Frp.C12.holds_is_named", "Frp.C12.one_live_proxy_per_name", "Frp.C12.named_is_live",
@@ -68,6 +70,17 @@ PROP = {
             "Frp.C12.refused_login_keeps_run_id", "Frp.C12.every_login_presents_last_assigned",
             "Frp.C12.relogin_presents_last_assigned", "Frp.C12.work_conns_carry_assigned",
             "Frp.C12.early_assign_forgets_witness", "Frp.C12.presentsOK_sound",
+            # what the teardown relies on in the dispatcher: pkg/msg/handler.go as a small-step system in product with the
+            # session model (Frp/Model/SessDisp.lean, Frp/Props/C12Disp.lean, C12DispCode.lean, Frp/Gen/DispFacts.lean)
+            "Frp.C12.closed_mono", "Frp.C12.hp_idle_kept", "Frp.C12.dinv_init", "Frp.C12.dinv_step",
+            "Frp.C12.dinv_run", "Frp.C12.reachable_dinv", "Frp.C12.done_only_after_read_loop",
+            "Frp.C12.no_handler_after_done", "Frp.C12.refines_step", "Frp.C12.refines_run",
+            "Frp.C12.disp_refines_sess", "Frp.C12.teardown_without_handler", "Frp.C12.write_failure_changes_nothing",
+            "Frp.C12.disp_named_is_live", "Frp.C12.disp_teardown_releases_all", "Frp.C12.disp_own_run_never_blocks",
+            "Frp.C12.send_err_stops_orphan_witness", "Frp.C12.async_handlers_orphan_witness",
+            "Frp.C12.orphan_traces_not_frp", "Frp.C12.send_err_stops_blocks_own_relogin",
+            "Frp.C12.async_handlers_blocks_own_relogin", "Frp.C12.frp_trace_runs", "Frp.C12.dispatcher_code_shape",
+            "Frp.C12.code_cfg_is_frp", "Frp.C12.code_disp_refines_sess", "Frp.C12.code_no_handler_after_done",
         ],
         "engines": [
             {"name": "sess", "quick_n": 20000, "thorough_n": 60000, "thorough_seeds": 5,
@@ -101,6 +114,17 @@ PROP = {
                 "interleave at random; after every refusal the incumbent is probed: vprobe (Service.RegisterVisitorConn "
                 "with the right key: the listener exists and the session that receives ReqWorkConn is the holder), nprobe "
                 "(NatHoleVisitor pre-check through an unrelated session), tprobe (connect to the incumbent's remote port). "
+                "The dispatcher under a session: the server side of every control connection is wrapped so that failed reads "
+                "(= the read loop ends) and failed writes of frps are events; wpoke n p = a visitor with the right key / a tcp "
+                "user connects to session n's registered stcp / sudp / tcp proxy p, so that the proxy asks n's dispatcher "
+                "for a work connection (GetWorkConn -> Send -> sendLoop -> WriteMsg) - generated for open connections "
+                "(req:n) and, with weight, for sessions whose connection was closed WHILE their read loop sits inside a "
+                "handler parked at reg.checked / reg.ran / reg.added / close.deleted: the write must fail (wfail:n) and "
+                "nothing else may move - every step of the teardown (dispdone, drain, closeproxy x |own|, done, del) is "
+                "attempted right afterwards and must be disabled, then the handler is driven on; if the worker has passed "
+                "<-Done() (wfail:n;done, dispdone ok: DIFF) the model follows the implementation and holdsOn / resOn judge "
+                "the implementation's tables: a name or listener entering under a session that closed its done channel, "
+                "a re-login refused its own name. "
                 "Names travel as the client sends them: per world 4 raw names generated as variants of one base (leading / "
                 "trailing / inner blanks incl. tab, newline, NBSP, U+3000, zero-width; case variants; empty; blank only; "
                 "unicode; 60..3000 bytes; dotted), pairwise different raw strings are different keys. "
@@ -112,6 +136,15 @@ PROP = {
         "trusted": COMMON_TRUST + [
             "model Frp/Model/Sess.lean written by hand from server/service.go RegisterControl, server/control.go, "
             "server/proxy/proxy.go Manager, pkg/msg/handler.go; tied by the sess engine",
+            "model Frp/Model/SessDisp.lean (readLoop / sendLoop / Send / Done / the worker's <-Done() as labels, in product with "
+            "Sess) written by hand from pkg/msg/handler.go; tied to the source by translate/gen_dispfacts.go (go/ast): every "
+            "occurrence of the field doneCh in package msg with its kind (init / close / recv / return / other), every user of "
+            "msgDispatcher.Done() in server/ and client/, the go statements of Run, the statements of readLoop's for body, "
+            "go / defer / closures / sends in readLoop, the context of every handler call, the statements and calls of sendLoop, "
+            "whether WriteMsg's error is dropped, the statements of Send and Done -> Frp/Gen/DispFacts.lean, regenerated on "
+            "every run (C12.dispatcher_code_shape, C12.code_cfg_is_frp decide); tied to behaviour by the wpoke op",
+            "the harness wraps the server side of each scripted control connection (net.Pipe) to observe failed reads / writes; "
+            "the wrapper forwards every call unchanged",
             "verifhook gates of commit 75a0848 (ctl.*, worker.*, reg.*, close.*) perturb timing only; "
             "Service.VerifSessDump / proxy.Manager.VerifDump are read-only",
             "fact check (op randid): util.RandID output = first 16 hex digits of the bytes it read from crypto/rand.Reader",
@@ -136,7 +169,11 @@ PROP = {
             "Assumed: crypto/rand's bytes are unpredictable and N draws of 64 random bits are pairwise different - the "
             "collision probability is <= N^2/2^65 (N = 128000: < 5e-10), so pairwise distinctness of the ids observed in a "
             "run is a sound oracle for 'each id is new'",
-            "the dispatcher runs handlers sequentially and closes Done only after the last handler returned (pkg/msg/handler.go)",
+            "the dispatcher: no longer assumed - for the regenerated shape of pkg/msg/handler.go (doneCh closed only at the top of "
+            "readLoop after a failed ReadMsg, handlers called by the read loop itself, write errors dropped) Done fires only "
+            "after the read loop has returned and no handler runs afterwards, for every interleaving (C12.disp_refines_sess). "
+            "Still assumed: handlers registered through msg.AsyncHandler (nat hole messages) touch none of the session tables; "
+            "the send side of a closed connection fails (net.Pipe semantics in the engine)",
             "ports and routes behind a proxy (C09/C10), the work-connection pool (C11), plugins, MaxPortsPerClient and "
             "Control.runID=\"\" written by Replaced are outside this model; pxy.Run's outcome is an oracle for tcp proxies "
             "(determined by the model for stcp / sudp / xtcp)",
@@ -159,7 +196,9 @@ META = {
                      "rendez-vous tables (visitor listeners, nat hole clients) inside the session model with a third "
                      "invariant bundle, census + behavioural probes of the incumbent on the real Service; go/ast facts about "
                      "the key expression of every table operation and about frpc's login(); a model of frpc's run-id state "
-                     "tied by the real client.Service against a scripted server",
+                     "tied by the real client.Service against a scripted server; the message dispatcher as a small-step system in product "
+                     "with the session model, refinement proof for the regenerated shape of pkg/msg/handler.go, witnesses for the "
+                     "two other shapes, write-side faults driven through the real Control while a handler is parked",
         "text": "Proof (model level) + correspondence. For every interleaving of the atomic actions of any number of "
                 "sessions: at most one live proxy per name and its holder is the session stored in the global table; "
                 "a registration meeting an occupied name (at the Exist check or at the Add) is refused and changes "
@@ -197,7 +236,17 @@ META = {
                 "torn down session may remain. Client half: svr.runID is written only after the LoginResp.Error check "
                 "(regenerated), so for every history of accepted / refused / failed logins every Login carries the run id "
                 "assigned last (witness: with the assignment before the check one refused re-login makes the client "
-                "forget its id); evaluated on the real client.Service.",
+                "forget its id); evaluated on the real client.Service. The teardown's premise is proved, not assumed: the "
+                "dispatcher (read loop, send loop, Send, Done, the worker's <-Done()) is a small-step system in product with the "
+                "session model; for a dispatcher that closes its done channel only at the top of the read loop after a failed "
+                "ReadMsg, calls handlers itself and drops write errors (regenerated facts about pkg/msg/handler.go and every user "
+                "of msgDispatcher.Done()) - for every interleaving with Sends from anywhere and failing writes - Done fires only "
+                "after the read loop has returned, no handler runs or is entered afterwards, a failed write changes nothing, and "
+                "every reachable state of the product is a reachable state of the session model, so all clauses above hold for it; "
+                "with a send loop that ends the dispatcher on a failed write, or with handlers outside the read loop, a reachable "
+                "state has a name and a listener held by a session that closed its done channel and was deleted, and the client's "
+                "re-login is refused its own name (witnesses); driven on the real Control: the connection breaks while a NewProxy / "
+                "CloseProxy handler is parked and frps has a ReqWorkConn to write.",
         "note": "Trusted: Lean kernel; hand-written models; harness generators; gates; the translator's fact extraction. "
                 "For holdsOnBase the model's own tables are not proved to satisfy the executable predicate (ackOn and resOn "
                 "are: model_ackSpec, model_resSpec) - the predicate is evaluated on the implementation's tables and the "
